@@ -118,3 +118,23 @@ Proof. rewrite length_concat_sum, zero_miss_pieces_tile. reflexivity. Qed.
 Example tiles_example :
   tiles [1;2;3;4;5]%Z 0 ([2;4] ++ [5])%nat = [[1;2];[3;4];[5]]%Z.
 Proof. reflexivity. Qed.
+
+(* every digest product is a contiguous substring of the protein and passes the limits; hence
+   (pool_spec) every pool member is a substring of a prepared protein or the I->L image of one *)
+Lemma piece_substring (s : seq) a b : exists u v, s = u ++ piece s a b ++ v.
+Proof.
+  exists (firstn a s), (skipn (b - a) (skipn a s)). unfold piece.
+  rewrite (firstn_skipn (b - a) (skipn a s)). symmetry. apply firstn_skipn.
+Qed.
+
+Theorem cleave_products_substrings wt water lim r exc nf s p :
+  In p (cleave wt water lim r exc nf s) ->
+  (exists u v, s = u ++ p ++ v) /\ keep wt water lim p = true.
+Proof.
+  intros H. apply cleave_spec in H. destruct H as (pre & a & rest & b & _ & _ & Hk & Hp).
+  split; [|exact Hk].
+  destruct (piece_substring s a b) as (u & v & Huv).
+  destruct Hp as [->|(_ & _ & HM & ->)]; [exists u, v; exact Huv|].
+  destruct (piece s a b) as [|c q] eqn:E; [discriminate HM|]. cbn [tl].
+  exists (u ++ [c]), v. rewrite Huv, <- app_assoc. reflexivity.
+Qed.
